@@ -94,18 +94,17 @@ Proof.
     + apply step_inv. exact IH.
 Qed.
 
-Hypothesis np_ge : forall q, 0 <= q -> q <= np q.
-
-(* every answer is a right shift, by a non-negative amount, of f at a reached memo precision *)
-Theorem memo_served h q : 0 <= q ->
+(* every answer is a right shift, by a non-negative amount, of f at a reached memo precision
+   (q <= np q : the freshly computed value has at least the requested precision; true of int(q*1.05+10)) *)
+Theorem memo_served h q : q <= np q ->
   exists m, (exists q0, In q0 (q :: h) /\ m = np q0) /\ q <= m /\ answer h q = Z.shiftr (f m) (m - q).
 Proof.
   intros Hq. unfold answer. pose proof (memo_inv h) as Hinv.
   destruct (run h) as [[m v]|]; unfold step; cbn [inv_from] in Hinv.
   - destruct Hinv as [Hv [q0 [Hin Hm]]]. destruct (Z.leb_spec q m) as [Hle|Hgt]; cbn [snd].
     + exists m. split; [exists q0; split; [right; exact Hin|exact Hm]|]. split; [exact Hle|]. rewrite Hv. reflexivity.
-    + exists (np q). split; [exists q; split; [left; reflexivity|reflexivity]|]. split; [apply np_ge; exact Hq|reflexivity].
-  - cbn [snd]. exists (np q). split; [exists q; split; [left; reflexivity|reflexivity]|]. split; [apply np_ge; exact Hq|reflexivity].
+    + exists (np q). split; [exists q; split; [left; reflexivity|reflexivity]|]. split; [exact Hq|reflexivity].
+  - cbn [snd]. exists (np q). split; [exists q; split; [left; reflexivity|reflexivity]|]. split; [exact Hq|reflexivity].
 Qed.
 
 End Memo.
@@ -145,16 +144,17 @@ Section HistoryIndependence.
 Variable f : Z -> Z.
 Variable np : Z -> Z.
 Variable c : R.
-Hypothesis np_ge : forall q, 0 <= q -> q <= np q.
+Variable dom : Z -> Prop.            (* the requests considered, e.g. 0 <= q <= Q *)
+Hypothesis np_ge : forall q, dom q -> q <= np q.
 
 (* the exact-floor hypothesis is only needed at reachable memo precisions *)
-Hypothesis f_floor : forall q0, 0 <= q0 -> f (np q0) = Zfloor (c * bpow radix2 (np q0)).
+Hypothesis f_floor : forall q0, dom q0 -> f (np q0) = Zfloor (c * bpow radix2 (np q0)).
 
 Theorem memo_history_independent h q :
-  Forall (fun x => 0 <= x) h -> 0 <= q -> answer f np h q = Zfloor (c * bpow radix2 q).
+  Forall dom h -> dom q -> answer f np h q = Zfloor (c * bpow radix2 q).
 Proof.
-  intros Hh Hq. destruct (memo_served f np np_ge h q Hq) as [m [[q0 [Hin Hm]] [Hle Ha]]].
-  rewrite Ha. assert (Hq0 : 0 <= q0).
+  intros Hh Hq. destruct (memo_served f np h q (np_ge q Hq)) as [m [[q0 [Hin Hm]] [Hle Ha]]].
+  rewrite Ha. assert (Hq0 : dom q0).
   { destruct Hin as [<-|Hin]; [exact Hq|]. rewrite Forall_forall in Hh. apply Hh. exact Hin. }
   subst m. rewrite f_floor by exact Hq0. rewrite floor_floor_shift by lia.
   f_equal. rewrite Rmult_assoc, <- bpow_plus. f_equal. f_equal. lia.
